@@ -45,16 +45,19 @@ pub struct TestBed {
 /// the bed is found from the destination path (<root>/cache/...).
 pub fn install_inproc_rsync() {
     static ONCE: Once = Once::new();
-    ONCE.call_once(|| {
-        routinator::verif::set_rsync_override(Some(std::sync::Arc::new(|source: &str, dest: &Path| {
-            let root = dest.ancestors().find(|p| p.join("pub").is_dir() && p.join("fail").is_dir());
-            match root {
-                Some(root) => fake_rsync(&[root.to_string_lossy().into_owned(), source.to_string(),
-                                           dest.to_string_lossy().into_owned()]),
-                None => 12,
-            }
-        })));
-    });
+    ONCE.call_once(install_inproc_rsync_again);
+}
+
+/// Installs the in-process rsync unconditionally (after a check removed it to have the command spawned).
+pub fn install_inproc_rsync_again() {
+    routinator::verif::set_rsync_override(Some(std::sync::Arc::new(|source: &str, dest: &Path| {
+        let root = dest.ancestors().find(|p| p.join("pub").is_dir() && p.join("fail").is_dir());
+        match root {
+            Some(root) => fake_rsync(&[root.to_string_lossy().into_owned(), source.to_string(),
+                                       dest.to_string_lossy().into_owned()]),
+            None => 12,
+        }
+    })));
 }
 
 impl TestBed {
@@ -165,6 +168,13 @@ pub fn fake_rsync(args: &[String]) -> i32 {
         use std::io::Write;
         if let Ok(mut f) = std::fs::OpenOptions::new().create(true).append(true).open(root.join("rsync.log")) {
             let _ = writeln!(f, "{src}");
+        }
+    }
+    {
+        // the whole command line (without the bed root): the options routinator hands to rsync
+        use std::io::Write;
+        if let Ok(mut f) = std::fs::OpenOptions::new().create(true).append(true).open(root.join("rsync-args.log")) {
+            let _ = writeln!(f, "{}", args[1..].join(" "));
         }
     }
     {
